@@ -126,6 +126,8 @@ class Runner:
     def run(self, archive, argv, stdin=b"", pre=(), outside=(), uid=0, archive_mtime=NOW - 1000, timeout=20, keep=False,
             archive_arg=b"../archive.lzh", want_trees=True, stdin_pipe=False):
         self.n += 1
+        if uid and os.geteuid() != 0:
+            uid = 0          # cannot drop privileges: the case runs as the invoking user (who is then not root either)
         S = os.path.join(self.base, "c%d" % self.n)
         root = os.path.join(S, "root")
         os.makedirs(root)
